@@ -6,7 +6,7 @@ import os
 from common import case, case_to_json, coq_bytes, coq_result, shrink_bytes, REPO
 
 ID = "C12"
-MAKE_TARGETS = ["Props/C12.v", "Proofs/SchnorrSmallBig.v", "GenProps/Bip340Gen.v", "GenProps/CurveGen.v"]
+MAKE_TARGETS = ["Props/C12.v", "Props/Secp256k1.v", "Proofs/SchnorrSmallBig.v", "GenProps/Bip340Gen.v", "GenProps/CurveGen.v"]
 GEN_TABLES = ["Bip340Gen", "CurveGen"]
 CASE_TIMEOUT = 60.0
 FILLER = {"secp-verify-bitflip-msg", "c43-verify-rs-all", "c79-verify-rs-all", "c67-verify-rs-all"}
